@@ -876,10 +876,21 @@ class Program:
         if key in self._calls_cache:
             return self._calls_cache[key]
         out = []
+        callfuncs = set()
+        owner = self.owner_class(f)
         for n in self.own_nodes(f):
             if isinstance(n, ast.Call):
                 ts, kind = self.resolve_call(f, n, ctx)
                 out.append((n, ts, kind))
+                callfuncs.add(id(n.func))
+        # address-taken methods: self.m passed as a value (e.g. get_cached_value(..., self.calc_min))
+        if owner is not None:
+            for n in self.own_nodes(f):
+                if isinstance(n, ast.Attribute) and id(n) not in callfuncs and isinstance(n.ctx, ast.Load) \
+                        and isinstance(n.value, ast.Name) and n.value.id == 'self' and not self._shadowed_self(f, 'self'):
+                    ts = self._self_targets(owner, n.attr, ctx)
+                    if ts:
+                        out.append((n, [(t, ctx) for t in ts], 'ref'))
         out.sort(key=lambda x: (x[0].lineno, x[0].col_offset))
         # nested defs are reachable from their parent
         self._calls_cache[key] = out
